@@ -121,8 +121,12 @@ CHECKS.update({
         text=("determinize, min_det, push, trim, trim_vals: the result is judged by TLC for equal string weights on all strings "
               "up to the longest path (acyclic inputs over exact rationals: that is all strings) and for the structural "
               "postconditions Deterministic, Stochastic, TrimmedA of Automata.tla; cyclic deterministic inputs and Sat(3)/Bool "
-              "for trimming."),
-        ref="DESIGN.md section 6 (C13)", technique=TVA),
+              "for trimming; trimming the result of another operation; the library's own evaluation of the machines it "
+              "builds. Determinize.tla models the subset construction as a state machine (every expansion order; "
+              "OneArcPerSymbol, Residuals, PathInvariant, SameLanguage) and is model-checked on every 2-state machine of a "
+              "pool; the size of the code's result is compared with the closure of weighted subsets of the pushed machine."),
+        ref="DESIGN.md section 6 (C13)",
+        technique="TLA+ model Determinize.tla model-checked with TLC; " + TVA),
     "C14": dict(
         text=("counterexample(), ==, hash and min of field_wfsa on random 1-3 state automata and, for each, an equal copy, a "
               "state permutation, a redundant state, a split state, a single non-integer weight change, the empty language and "
